@@ -450,7 +450,7 @@ pub fn run(run: &mut Run) {
         and a tokio connection whose scripted transport accepts k in 1..=offered bytes per call (biased to 1, a few, all) and, for tokio, \
         returns Pending any number of times. Oracle: the bytes accumulated by the transport equal the concatenation of the encoder's frames \
         and every write returned Ok; packets too large for the size mode are interspersed: their write must return an error and leave nothing on the wire, and the frames written after them must still be intact. Writes between reads: sessions in which the peer sends packets (keep-alives among them, which the connection answers itself) and the application writes packets (TINY_NONE among them) between the reads: the transport must receive the replies and the written frames in call order, nothing missing, nothing twice. Complete: all 128 acceptance patterns of an 8-byte frame (written twice) x 2 modes. Non-trivial = \
-        at least one call accepted less than offered or returned Pending."
+        at least one call accepted less than offered or returned Pending. Further parts: write sessions of thousands of packets; a transport error exactly at a frame boundary (that write fails, all others arrive intact); transports that announce vectored writes (every other script); two tokio connections driven by one thread, the second writing whenever the first is suspended inside a frame - each transport must receive exactly its own frames."
         .into();
     run.assumptions = vec!["the expected byte stream is the concatenation of Codec::encode of each packet (C01-C03 judge the encoder)".into()];
     run.enumerate(&Compositions, 256, true, |i| Some((i >= 128, (i % 128) as u8)));
